@@ -33,6 +33,20 @@ class Check(PropertyCheck):
     def oracle(self, impl, scenario, index, line, out, ctx):
         res = []
         d = impl.dispatcher
+        if line.startswith("inst"):
+            # a history observer of our own: its record is "the recorded history" the property speaks of
+            ctx["hobs"] = jsl.HistoryObserver(d)
+            ctx["held"] = ctx["hobs"].history
+            ctx["held_copy"] = list(ctx["held"])
+        if line == "reset" and ctx.get("hobs") is not None:
+            # the list a caller took from the observer before the reset is still the recorded history
+            if [(x.operation.operation_id, x.machine_id) for x in ctx["held"]] != \
+                    [(x.operation.operation_id, x.machine_id) for x in ctx["held_copy"]]:
+                res.append(("recorded-history-destroyed", f"the history recorded before reset() ({len(ctx['held_copy'])} "
+                            f"entries, taken from HistoryObserver.history) has {len(ctx['held'])} entries after reset(): "
+                            "it cannot be re-dispatched"))
+            ctx["held"] = ctx["hobs"].history
+            ctx["held_copy"] = list(ctx["held"])
         if line.startswith("inst") or line == "reset":
             if line == "reset" and ctx.get("history"):
                 ctx["before_reset"] = (ctx["last_dump"], list(ctx["history"]))
@@ -87,6 +101,13 @@ class Check(PropertyCheck):
         ctx["before"] = now
         ctx["before_lists"] = [list(ms) for ms in d.schedule.schedule]
         ctx["last_dump"] = now
+        if ctx.get("hobs") is not None:
+            ctx["held"] = ctx["hobs"].history
+            ctx["held_copy"] = list(ctx["held"])
+            got = [(x.operation.operation_id, x.machine_id) for x in ctx["held"]]
+            want = [(o.operation_id, m) for o, m in ctx["history"]]
+            if got != want:
+                res.append(("history-record", f"HistoryObserver recorded {got}, accepted sequence is {want}"))
         # replay checks at the end of the scenario
         if index == len(scenario.lines) - 2 and ctx.get("before_reset"):
             dump0, hist0 = ctx["before_reset"]
